@@ -5225,6 +5225,16 @@ class PyCdlib:
                         new_list.append((linkrec, is_pvd))
                 entry.inode.linked_records = new_list
 
+                # If the El Torito entry was the last reference to this data
+                # (the boot file had been hidden), release the data as well.
+                if not entry.inode.linked_records:
+                    for index, ino in enumerate(self.inodes):
+                        if id(ino) == id(entry.inode):
+                            del self.inodes[index]
+                            num_bytes_to_remove += utils.ceiling_div(entry.inode.get_data_length(),
+                                                                     self.logical_block_size) * self.logical_block_size
+                            break
+
         num_bytes_to_remove += len(self.eltorito_boot_catalog.record())
 
         self.eltorito_boot_catalog = None
